@@ -772,6 +772,7 @@ func (c *fnCtx) execBlock(b *ssa.BasicBlock, st *State) {
 			c.out[b] = st
 			return
 		case *ssa.Panic:
+			c.fireAnchors(st, b, in)
 			if c.checkPanics {
 				c.oblige(st, "panic", "false", "explicit panic unreachable", c.safetyProps(), in.Pos())
 			}
